@@ -173,7 +173,7 @@ Proof. intros s L. apply shape_rproj; [exact L | reflexivity]. Qed.
 Ltac refused H :=
   right; split; [reflexivity | split; [cbn; unfold ST_OK, ST_DENIED, ST_REFUSED, ST_CONNFAIL; discriminate | split; [exact H | left; reflexivity]]].
 
-Lemma reserve_rsvp : forall c sa p k acl inj, linv true sa -> (k = 0 \/ k = 1) ->
+Lemma reserve_rsvp : forall c sa p k acl inj, linv true sa ->
   let sb := fst (handle_reserve c sa p k acl inj) in
   let obs := snd (handle_reserve c sa p k acl inj) in
   (nth 1 obs 0 = 1 /\ s_closed sa = false /\ s_closed sb = false /\ s_now sb = s_now sa /\ s_link sb = s_link sa /\
@@ -182,7 +182,7 @@ Lemma reserve_rsvp : forall c sa p k acl inj, linv true sa -> (k = 0 \/ k = 1) -
    nth 0 obs 0 = ST_OK /\ nth 3 obs 0 = 1 /\ nth 4 obs 0 = 1 /\ nth 5 obs 0 = p) \/
   (nth 1 obs 0 = 0 /\ nth 0 obs 0 <> ST_OK /\ shape sa sb /\ (s_now sb = s_now sa \/ s_now sb = s_now sa + 1)).
 Proof.
-  intros c sa p k acl inj L Hk. cbv zeta. unfold handle_reserve.
+  intros c sa p k acl inj L. cbv zeta. unfold handle_reserve.
   assert (SR : shape sa sa) by (apply shape_refl; exact L).
   destruct (negb (s_link sa p k) || s_closed sa) eqn:E0; [refused SR|].
   destruct (negb (mem_ok_always c (s_mem sa) maxMessageSize)); [refused SR|].
@@ -288,9 +288,6 @@ Qed.
 Definition time_ok (now t : Z) (o : op) (tend : Z) : Prop :=
   now <= t /\ t + 1 <= tend /\ match o with OAdvance dt => t + dt <= tend | _ => True end.
 
-Lemma nk_01' : forall k, nk k = 0 \/ nk k = 1.
-Proof. intros. unfold nk. destruct (k =? 0); auto. Qed.
-
 Lemma step_rsvp : forall c s t o tend, linv true s -> 0 <= c_ttl c -> time_ok (s_now s) t o tend ->
   let sa := advance_to c s t in
   let s' := fst (step c s t o tend) in
@@ -341,7 +338,7 @@ Proof.
        assert (Hn : s_now sb <= tend) by (destruct Tm as [Tm|[Tm|(dt' & Ed & Tm)]]; try (inversion Ed; subst dt'); lia);
        destruct (Comb sb Sh Hn) as (C1 & C2 & C3); split; [exact C1 | split; [exact C2 | exact C3]]).
   - (* RESERVE *)
-    cbn [apply_op]. destruct (reserve_rsvp c sa p (nk k) acl inj La (nk_01' k)) as [G | R];
+    cbn [apply_op]. destruct (reserve_rsvp c sa p (nk k) acl inj La) as [G | R];
       destruct (handle_reserve c sa p (nk k) acl inj) as [sb ob]; cbn [fst snd] in *.
     + destruct G as (G1 & G2 & G3 & G4 & G5 & G6 & G7 & G8 & G9 & G10 & G11 & G12).
       destruct (Tail sb ltac:(lia)) as (B1 & B2 & B3 & B4).
